@@ -305,6 +305,10 @@ class ClientPort:
         self.conn: PubSubConn | None = None
         self.allow_connect = asyncio.Event()
         self.allow_connect.set()
+        self.waiting_connect = False     # the listener is parked in a connect attempt (the harness decides its fate)
+        self.refuse_next = 0             # >0: the next connect attempt that is let through is REFUSED (ConnectionError)
+        self.attempts = 0                # connect attempts that got an answer (accepted or refused)
+        self.refused = 0                 # …of which refused
 
     async def execute(self, client, args):
         return await self.hub.execute(self.idx, args)
@@ -313,7 +317,20 @@ class ClientPort:
         return [await self.hub.execute(self.idx, a, multi=True) for a in cmds]
 
     async def pubsub_connect(self, pubsub):
-        await self.allow_connect.wait()
+        """a connect attempt of the invalidation connection.  While `allow_connect` is cleared the attempt hangs (the harness
+        decides when it is answered, so the reconnect schedule is explicit in the history); with `refuse_next` it is answered by
+        a refusal, after which the next attempt hangs again."""
+        self.waiting_connect = True
+        try:
+            await self.allow_connect.wait()
+        finally:
+            self.waiting_connect = False
+        self.attempts += 1
+        if self.refuse_next > 0:
+            self.refuse_next -= 1
+            self.refused += 1
+            self.allow_connect.clear()
+            raise redis.ConnectionError("stub: invalidation connection refused")
         self.conn = PubSubConn(self)
         return self.conn
 
